@@ -62,8 +62,12 @@ func VP_C11_Cli() {
 	// the branches that the history renames to, creates and deletes, or switches to: ordinary names, or the legal name "HEAD"
 	// (its per-branch journal logs/refs/heads/HEAD must not be confused with the journal of HEAD itself)
 	trunk, gone, topic := "trunk", "gone", "topic"
-	if zzvp.Choose(2) == 1 {
+	switch zzvp.Choose(3) {
+	case 1:
 		trunk, gone, topic = "HEAD", "HEAD", "HEAD"
+	case 2:
+		// a name with a printf verb and a trailing blank (decorations of reflog entries carry branch names)
+		trunk, gone, topic = "100%d ", "100%d ", "100%d "
 	}
 	vpOK(zzvp.Run("branch", "dev")) // stays at the first commit
 	zzvp.WriteFile(w+"/f", []byte("2"))
